@@ -561,6 +561,20 @@ impl<T: Val> OutPort for OutPkt<T> {
     }
 }
 
+/// Stands in for a block that has been dropped (see drop_flush).
+#[derive(rustradio_macros::Block)]
+#[rustradio(new)]
+pub struct Gone {
+    #[rustradio(default)]
+    calls: usize,
+}
+impl Block for Gone {
+    fn work(&mut self) -> rustradio::Result<BlockRet> {
+        self.calls += 1;
+        Ok(BlockRet::EOF)
+    }
+}
+
 pub struct Rig {
     pub block: Box<dyn Block + Send>,
     pub ins: Vec<Box<dyn InPort>>,
@@ -933,6 +947,19 @@ pub fn run_scenario(spec: &Value) -> Vec<Value> {
     let panicked = log.last().map(|e| e["verdict"]["kind"] == "panic").unwrap_or(false);
     if !panicked && !spec["no_settle"].as_bool().unwrap_or(false) {
         let ok = settle(&mut rig, &mut log, spec["close"].as_bool().unwrap_or(false));
+        if spec["drop_flush"].as_bool().unwrap_or(false) {
+            // A block that emits when it is dropped (Hasher): drop it, as the runners do after
+            // EOF, and record what it left on its outputs as one more (empty) work step.
+            let gone: Box<dyn Block + Send> = Box::new(Gone::new());
+            let old = std::mem::replace(&mut rig.block, gone);
+            let r = catch(move || drop(old));
+            if let Err(p) = r {
+                log.push(json!({"ev": "work", "avail": [], "space": [], "consumed": [], "produced": [], "verdict": {"kind": "panic", "msg": p},
+                    "rc_same": true, "out": [], "outn": [], "tags": [], "eof": false}));
+            } else {
+                do_work(&mut rig, &mut log);
+            }
+        }
         log.push(json!({"ev": "final", "settled": ok,
             "left": rig.ins.iter().map(|p| p.left()).collect::<Vec<_>>(),
             "backlog": rig.ins.iter().map(|p| p.avail()).collect::<Vec<_>>()}));
